@@ -42,6 +42,12 @@ fn stackn_insufficient_h<T: 'static, const N: usize, const SIZE: usize>() {
     kani::cover!(true, "RETURNED");
 }
 
+/// an element alignment the 64-aligned inline buffer cannot honour (also for a zero-sized type): build cannot return
+fn stack_overaligned_h<T: 'static, const SIZE: usize>(n: bool) {
+    if n { let _m = StackN::<1, SIZE>.build(Layout::new::<T>()); } else { let _m = Stack::<SIZE>.build(Layout::new::<T>()); }
+    kani::cover!(true, "RETURNED");
+}
+
 fn empty_h<T: 'static>() {
     let l = Layout::new::<T>();
     let mut m = Empty.build(l);
